@@ -107,6 +107,45 @@ var (
 	reserved   []int
 )
 
+// Blackhole returns the address of a TCP socket that listens but never completes another handshake: backlog 0 and a
+// full accept queue, so the kernel drops further SYNs (Linux).  A dial to it neither succeeds nor is refused; it ends
+// when the dialler's own time limit or context does.  The socket and the connections filling its queue live until the
+// process ends.
+func Blackhole() (string, error) {
+	fd, err := syscall.Socket(syscall.AF_INET, syscall.SOCK_STREAM, 0)
+	if err != nil {
+		return "", err
+	}
+	if err := syscall.Bind(fd, &syscall.SockaddrInet4{Addr: [4]byte{127, 0, 0, 1}}); err != nil {
+		syscall.Close(fd)
+		return "", err
+	}
+	if err := syscall.Listen(fd, 0); err != nil {
+		syscall.Close(fd)
+		return "", err
+	}
+	sa, err := syscall.Getsockname(fd)
+	in4, ok := sa.(*syscall.SockaddrInet4)
+	if err != nil || !ok {
+		syscall.Close(fd)
+		return "", fmt.Errorf("getsockname: %v", err)
+	}
+	addr := fmt.Sprintf("127.0.0.1:%d", in4.Port)
+	for i := 0; i < 16; i++ {
+		c, err := net.DialTimeout("tcp", addr, 250*time.Millisecond)
+		if err != nil {
+			if ne, ok := err.(net.Error); ok && ne.Timeout() {
+				return addr, nil
+			}
+			return "", fmt.Errorf("filling the accept queue: %v", err)
+		}
+		blackholeFill = append(blackholeFill, c)
+	}
+	return "", fmt.Errorf("the accept queue of a backlog-0 listener never filled up")
+}
+
+var blackholeFill []net.Conn
+
 func freeAddrFallback() string {
 	l, err := net.Listen("tcp", "127.0.0.1:0")
 	if err != nil {
